@@ -444,8 +444,13 @@ class Gen:
             v1, v2 = self.fresh(ints), self.fresh(ints)
             if v1 == v2:
                 v2 = v2 + 'b'
-            return ['%s, %s = %s, %s' % (v1, v2, self.int_expr(d - 1, ints, seqs), self.operand(d - 1, ints, seqs, False))], \
-                ints | {v1, v2}, seqs, False
+            rhs = '%s, %s' % (self.int_expr(d - 1, ints, seqs), self.operand(d - 1, ints, seqs, False))
+            if r.random() < 0.35:
+                self.feats.add('assign-unpack-store')
+                t2 = r.choice(['O.o1.p', 'O.o1.o2.qq', 'O[%s]' % self.atom(ints), 'O.o1[%s]' % self.int_expr(1, ints, seqs)])
+                lhs = r.choice(['%s, %s', '[%s, %s]', '(%s, %s)']) % ((v1, t2) if r.random() < 0.5 else (t2, v1))
+                return ['%s = %s' % (lhs, rhs)], ints | {v1}, seqs, False
+            return ['%s, %s = %s' % (v1, v2, rhs)], ints | {v1, v2}, seqs, False
         if x < 0.54:
             self.feats.add('store')
             y = r.random()
